@@ -3718,7 +3718,10 @@ func (a *Association) resetOutgoingStreamSequenceNumbers(reconfigRequestSequence
 		return
 	}
 	for _, id := range resetRequest.streamIdentifiers {
-		if s, ok := a.streams[id]; ok {
+		// A stream that is open again under this identifier is a new incarnation (Close
+		// moves a stream out of the open state before the request is sent): a late
+		// response for the previous incarnation must not restart its counters mid-life.
+		if s, ok := a.streams[id]; ok && s.State() != StreamStateOpen {
 			s.resetOutgoingStreamSequenceNumbers()
 		}
 	}
